@@ -31,14 +31,24 @@ func tierGrids() []gridOpts {
 		deep.MinR = 1
 		return []gridOpts{full, deep}
 	}
-	t := full
-	t.N, t.MaxSlots, t.Rich = 5, 3, true
-	t.Strategies = strategiesFor(5)
-	a, b, c := t, t, t
+	// thorough: four grids, shallow and wide first
+	a := full
+	a.N, a.MaxSlots, a.Rich = 5, 3, true
+	a.Strategies = strategiesFor(5)
 	a.DMin, a.DMax = 0, 1
+	b := full
+	b.Rich = true
+	b.Histories = coreHistories
 	b.DMin, b.DMax = 2, 2
-	c.DMin, c.DMax = 3, 3
-	return []gridOpts{a, b, c}
+	c := full
+	c.N, c.MaxSlots, c.MinR = 5, 1, 1
+	c.Strategies = []gen.Strategy{gen.RU(0), gen.RU(2), gen.OnDelete()}
+	c.Histories = []history{histories[1], histories[3], histories[5]}
+	c.DMin, c.DMax = 2, 2
+	d := c
+	d.N = 4
+	d.DMin, d.DMax = 3, 3
+	return []gridOpts{a, b, c, d}
 }
 
 func monitorOf(props ...string) explore.JudgeFn {
@@ -72,7 +82,7 @@ func snapshotCheck(prop string, mod func(*gridOpts), extraRule string) int {
 		" The same monitor also runs over the progress closure of the C02 seeds explored with stale caches (lag bound L=1; thorough: L=1 with one deviation and L=2), where the reconciler sees snapshots lacking its own latest writes. A case is non-trivial when the reconcile issued at least one API write or returned an error; distinct = distinct canonical state keys among those."
 	rep.Assumptions = apiAssumptions
 	var n int64
-	explore.RunSnapshots(rep, explore.Deadline(100*time.Second, 15*time.Minute), func(emit func(explore.Case) bool) {
+	explore.RunSnapshots(rep, explore.Deadline(100*time.Second, 25*time.Minute), func(emit func(explore.Case) bool) {
 		for _, o := range grids {
 			ok := true
 			snapshotGrid(o, func(c explore.Case) bool { n++; ok = emit(c); return ok })
@@ -107,7 +117,7 @@ func init() {
 		return snapshotCheck("C07", nil, "Oracle: an update-delete at i needs RollingUpdate, i >= partition and every higher desired pod present, updated, Running, Ready; <=1 per reconcile; new pods carry the revision their ordinal calls for and that revision's template; none under OnDelete.")
 	})
 	register("c12", "status tells the truth (snapshot enumeration)", func([]string) int {
-		return snapshotCheck("C12", nil, "Plus the census clause on the search driver: at every quiescent fixed point reached from the C02 seeds (thorough: after any single deviation) the counters equal a census of the live pods (total, ready, at current revision, at update revision). Oracle on every status write: 0<=ready,current,updated<=replicas; observedGeneration = reconciled generation >= stored; currentRevision moves only to updateRevision and only when every claimed pod is updated and Ready.")
+		return snapshotCheck("C12", nil, "Plus the census clause on the search driver: at every quiescent fixed point reached from the C02 seeds (thorough: after any single deviation) the counters equal a census of the live pods (total, ready, at current revision, at update revision); and a fault phase in which every status write is hit by a conflict (stale or refreshed cache), an InternalError or a lost response. Oracle on every status write: 0<=ready,current,updated<=replicas; observedGeneration = reconciled generation >= stored; currentRevision moves only to updateRevision and only when every claimed pod is updated and Ready.")
 	})
 	register("c14", "Parallel policy never waits (snapshot enumeration)", func([]string) int {
 		return snapshotCheck("C14", func(o *gridOpts) { o.Policies = []string{"Parallel"} }, "Oracle: an error-free reconcile creates every vacant desired ordinal and deletes every live pod outside the desired set; <=1 update delete.")
